@@ -24,8 +24,8 @@ var purposeSection = map[string]string{
 
 // ProjOpts are the transformer options.
 type ProjOpts struct {
-	Base       bool
-	MethodCtx  []string
+	Base      bool
+	MethodCtx []string
 }
 
 // Projected is the expected external document split into the order-insensitive context set and the rest.
